@@ -48,3 +48,8 @@ def compare(case, om, oi):
 
 def nontrivial(case, om, oi):
     return case.count(",") >= 2 and len(case.split(" ")[2]) >= 6
+
+
+def impl_skip(case, om):
+    """the model predicts that the call does not return (zero-time cycle, finding D8)"""
+    return "noprogress" in om
